@@ -21,7 +21,6 @@ theorem sqrtQ_mul_self (q : Rat) : sqrtQ (q * q) = |q| := by
     simp only [h1, if_false, hn, hd, Nat.sqrt_eq, and_self, if_true]
     rw [Rat.abs_def, Rat.divInt_eq_div]
     congr 1
-    rw [Nat.cast_natAbs]
 
 theorem sqrtQ_sqrtAt (q : Rat) : SqrtAt sqrtQ (q * q) := by
   refine ⟨?_, ?_⟩
